@@ -140,9 +140,10 @@ class C07Universe(gen.Universe):
         for t in self.arr_types:
             add(t, 2)
         add(self.U, 2)
-        self.pair_types = [self.PairDecl(INT, INT), self.PairDecl(BOOL, self.U)]
+        inst = self.tm.get_type_instance
+        self.pair_types = [inst(self.PairDecl, INT, INT), inst(self.PairDecl, BOOL, self.U)]
         if rng.random() < 0.5:
-            self.pair_types.append(self.PairDecl(self.PairDecl(INT, INT), BVType(4)))
+            self.pair_types.append(inst(self.PairDecl, self.pair_types[0], BVType(4)))
         for t in self.pair_types:
             add(t, 1)
         self.funs = [
@@ -313,11 +314,18 @@ def print_all(f, with_file=False):
             out[key] = ("ok", f.to_smtlib(daggify=dag))
         except Exception as e:          # noqa: BLE001 — any exception of the printer is an outcome
             out[key] = ("exc", type(e).__name__ + ": " + str(e)[:200])
+    if not f.get_type().is_bool_type():
+        return out                      # only formulas can be asserted
+    from pysmt.exceptions import NoLogicAvailableError
     try:
         import warnings
         with warnings.catch_warnings():
             warnings.simplefilter("ignore")
-            script = smtlibscript_from_formula(f)
+            try:
+                script = smtlibscript_from_formula(f)
+            except NoLogicAvailableError:
+                out["no_logic"] = True  # the logic computation is C13's subject: no script, nothing to check here
+                return out
         out["logic"] = str(script.commands[0].args[0])
         for key, dag in (("script_tree", False), ("script_dag", True)):
             buf = io.StringIO()
@@ -387,14 +395,14 @@ def signature(printer, ans, f, info):
 
 def case_lines(enc, interps_enc, k, texts):
     """driver requests of one case: [(tag, line)]"""
-    lines = []
+    lines = [("H:hyp", "printable %s" % enc)]
     for p in ("tree", "dag"):
         st, txt = texts[p]
         if st == "ok":
             lines.append(("K:" + p, "cmp_print %s %s %s" % (p, enc, hx(txt))))
             lines.append(("S:" + p, "chk_print %d %s %s %s" % (k, interps_enc, enc, hx(txt))))
     for p, dag in (("script_tree", 0), ("script_dag", 1)):
-        st, txt = texts[p]
+        st, txt = texts.get(p, ("none", ""))
         if st == "ok":
             lines.append(("K:" + p, "cmp_script %d %s %s %s" % (dag, hx(texts["logic"]), enc, hx(txt))))
             lines.append(("S:" + p, "chk_script %d %s %s %s" % (k, interps_enc, enc, hx(txt))))
@@ -411,6 +419,9 @@ def judge(ctx, tag, line, ans, f_readable, info, texts, enc):
            "text": texts.get(printer, ("", ""))[1][:2000], "info": {k: v for k, v in info.items()}}
     if ans.startswith("bad-op"):
         ctx.infra("C07 driver rejected a request: %s :: %s" % (ans, f_readable))
+        return
+    if layer == "H":
+        ctx.count("theorem_hypotheses_" + ans.replace(" ", "_"))
         return
     if layer == "K":
         if ans == "same":
@@ -506,6 +517,8 @@ def run(ctx):
                         ctx.report_s({"oracle": "exception", "printer": p, "exc": texts[p][1].split(":")[0]},
                                      "%s printing raised %s" % (p, texts[p][1]),
                                      {"formula": rd, "enc": enc, "printer": p})
+                if texts.get("no_logic"):
+                    ctx.count("script_skipped_no_logic")
                 cl = case_lines(enc, interps_enc, k, texts)
                 for tag, line in cl:
                     lines.append(line)
@@ -560,7 +573,7 @@ def _ty_from_name(tm, name):
     args = [_ty_from_name(tm, p) for p in parts]
     if base == "Array":
         return ArrayType(args[0], args[1])
-    return tm.Type(base, len(args))(*args)
+    return tm.get_type_instance(tm.Type(base, len(args)), *args)
 
 
 def _ty_from_wire(tm, t):
